@@ -127,6 +127,9 @@ def menu(f, with_queries=False, full=True):
             add('eval', True, expr='%s = %s' % (nv, numvars[0]))
     add('binop', noncoord_num and (not conv or flags_are_coords), o='+')
     add('binop', noncoord_num and (not conv or flags_are_coords), o='/')
+    if dn and not conv:
+        # right operand with the same shapes but another dimension name: the result keeps the left's dimensions
+        add('binop_renamed', noncoord_num, dim=dn[0])
     if 'x' in vars_ and vars_['x'][0] == ('x',) and dims.get('x', 0) >= 2 \
             and vars_['x'][1].kind in NUM:
         xv = np.asarray(f.variables['x'][...], dtype='d')
@@ -202,6 +205,8 @@ def do_op(f, op):
             return f - f
         if op['o'] == '*':
             return f * f
+    if name == 'binop_renamed':
+        return f - f.renameDimension(op['dim'], op['dim'] + '_r')
     if name == 'interpDimension':
         xv = np.asarray(f.variables[op['dim']][...], dtype='d')
         mids = (xv[:-1] + xv[1:]) / 2.
